@@ -34,10 +34,17 @@
 //   rz k d..         k->resize(d..)                           rzx k d..  resize whose data allocation fails (object stays, empty)
 //   as k s           *k = *s    (array assignment; allocates when k is empty, a temporary copy when they overlap in memory)
 //   sa a b           swap(*a, *b) of two arrays of the same rank
+//   il k cls r v    new object of rank r (1..6; rank 7 does not compile in the pinned tree) CONSTRUCTED FROM A NESTED std::initializer_list of the shape LIST_SHAPES[r] (v=1: later rows
+//                    shorter than the first — ragged); cls 0 active Array<r>, 1 inactive Array<r>, 2 active FixedArray<shape>, 3 inactive
+//                    FixedArray<shape>.  An inactive Array is also copied, linked and (rank 1) an EMPTY view of it is taken and dropped.
+//   al k v           *k = {list of rank(k)} (assignment from an initializer list): arrays of rank 1..6 that are empty() or have exactly the
+//                    list's shape, and objects made by `il`
+//   lt k s spec..    *k >>= (*s)(spec..)  (Array::operator>>=(Array&&): link to a TEMPORARY view); k must have the rank of the view
+//   spec r<lo>:<hi>:<st> with hi < lo < dim and lo < hi + 2*st is an EMPTY selection (stride(lo,hi,st).size() == 0)
 // one observation line per op: "<ret> ig= mg= nr= gaps=[..] cur=" (same text as Adept.GradAlloc.observe), with V=1 followed by
 // " | " and, by handle: k=S[idx] adouble, k=F[idx+n] FixedArray, k=V[idx,..]c<capacity> vector, k=B[idx,..] adouble[],
 // k=A<kind>[<gradient_index>+<slots spanned>@<storage gradient_index>/<n_allocated>/<n_links>~<data_ - storage data>] or
-// k=A<kind>[e] (no storage)
+// k=A<kind>[e] (no storage); an empty view (all extents zero) reports 0 slots spanned; k=I[] inactive object made by `il`
 #include "spy.h"
 #include <map>
 #include <malloc.h>
@@ -91,6 +98,9 @@ struct Base {
   virtual bool swapWith(Base*) { return false; }
   virtual Base* slice(const std::vector<Spec>&) { return 0; }
   virtual long gidx() { return -1; }
+  virtual int assignList(int) { return -1; }          // -1 not applicable, 0 done
+  virtual bool linkSlice(Base*, const std::vector<Spec>&) { return false; }
+  virtual int dimAt(int) { return -1; }
 };
 
 struct ScalarH : Base {
@@ -140,6 +150,17 @@ template <> struct Traits<aMatrix>  { enum { kind = 2 };
 template <> struct Traits<aArray3D> { enum { kind = 3 };
   static aArray3D* mk(const std::vector<int>& d) { return new aArray3D(d[0], d[1], d[2]); }
   static void rz(aArray3D* p, const std::vector<int>& d) { p->resize(d[0], d[1], d[2]); } };
+template <> struct Traits<aArray4D> { enum { kind = 4 };
+  static aArray4D* mk(const std::vector<int>& d) { return new aArray4D(d[0], d[1], d[2], d[3]); }
+  static void rz(aArray4D* p, const std::vector<int>& d) { p->resize(d[0], d[1], d[2], d[3]); } };
+template <> struct Traits<aArray5D> { enum { kind = 5 };
+  static aArray5D* mk(const std::vector<int>& d) { return new aArray5D(d[0], d[1], d[2], d[3], d[4]); }
+  static void rz(aArray5D* p, const std::vector<int>& d) { p->resize(d[0], d[1], d[2], d[3], d[4]); } };
+template <> struct Traits<aArray6D> { enum { kind = 6 };
+  static aArray6D* mk(const std::vector<int>& d) { return new aArray6D(d[0], d[1], d[2], d[3], d[4], d[5]); }
+  static void rz(aArray6D* p, const std::vector<int>& d) { p->resize(d[0], d[1], d[2], d[3], d[4], d[5]); } };
+// rank 7: Array<7,…> and every 7-dimensional FixedArray cannot be instantiated in the pinned tree (`permute(Index…)` is a NON-template member
+// whose return type is enable_if<(Rank < 7), Array>::type: a hard error when the class is instantiated), so ranks 1..6 are driven
 #define SPECIAL_TRAITS(T, K) template <> struct Traits<T> { enum { kind = K }; \
   static T* mk(const std::vector<int>& d) { return new T(d[0]); } \
   static void rz(T* p, const std::vector<int>& d) { p->resize(d[0]); } };
@@ -149,6 +170,7 @@ SPECIAL_TRAITS(aTridiagMatrix, 14)
 SPECIAL_TRAITS(aDiagMatrix, 15)
 
 template <int R> static long span_of(Array<R, Real, true>& a) {
+  if (a.dimension(0) == 0) return 0;          // an empty view: no element
   long s = 1;
   for (int i = 0; i < R; ++i) {
     long o = a.offset(i); if (o < 0) o = -o;
@@ -164,6 +186,8 @@ template <class E> static long span_of(SpecialMatrix<Real, E, true>& a) {
 
 template <class A> struct ArrH;
 template <class V> static Base* wrap_view(const V& v);
+template <class A> static int dim_of(A&, int) { return -1; }
+template <int R> static int dim_of(Array<R, Real, true>& a, int i) { return i < R ? a.dimension(i) : -1; }
 
 // slicing: only Array ranks 1..3 (overloads chosen by the static type)
 static Base* do_slice(aVector& a, const std::vector<Spec>& s);
@@ -172,13 +196,72 @@ static Base* do_slice(aArray3D& a, const std::vector<Spec>& s);
 template <class A> static Base* do_slice(A&, const std::vector<Spec>&) { return 0; }
 
 template <class A> static bool do_swap(A&, A&) { return false; }
-static bool do_swap(aVector& a, aVector& b) { swap(a, b); return true; }
-static bool do_swap(aMatrix& a, aMatrix& b) { swap(a, b); return true; }
-static bool do_swap(aArray3D& a, aArray3D& b) { swap(a, b); return true; }
+template <int R> static bool do_swap(Array<R, Real, true>& a, Array<R, Real, true>& b) { swap(a, b); return true; }
 template <class A> static bool do_assign(A&, A&) { return false; }
-static bool do_assign(aVector& a, aVector& b) { a = b; return true; }
-static bool do_assign(aMatrix& a, aMatrix& b) { a = b; return true; }
-static bool do_assign(aArray3D& a, aArray3D& b) { a = b; return true; }
+template <int R> static bool do_assign(Array<R, Real, true>& a, Array<R, Real, true>& b) { a = b; return true; }
+
+// ---- initializer lists: one shape per rank, v=0 full, v=1 ragged (rows after the first are shorter)
+static const int LIST_SHAPES[8][7] = { {0}, {3}, {2, 3}, {2, 1, 2}, {1, 2, 1, 2}, {2, 1, 1, 2, 1}, {1, 1, 2, 1, 1, 2}, {1, 2, 1, 1, 2, 1, 2} };
+#define LIT_1_0 {1,2,3}
+#define LIT_1_1 {1,2,3}
+#define LIT_2_0 {{1,2,3},{4,5,6}}
+#define LIT_2_1 {{1,2,3},{4}}
+#define LIT_3_0 {{{1,2}},{{3,4}}}
+#define LIT_3_1 {{{1,2}},{{3}}}
+#define LIT_4_0 {{{{1,2}},{{3,4}}}}
+#define LIT_4_1 {{{{1,2}},{{3}}}}
+#define LIT_5_0 {{{{{1},{2}}}},{{{{3},{4}}}}}
+#define LIT_5_1 {{{{{1},{2}}}},{{{{3}}}}}
+#define LIT_6_0 {{{{{{1,2}}},{{{3,4}}}}}}
+#define LIT_6_1 {{{{{{1,2}}},{{{3}}}}}}
+#define LIT_7_0 {{{{{{{1,2}},{{3,4}}}}},{{{{{5,6}},{{7,8}}}}}}}
+#define LIT_7_1 {{{{{{{1,2}},{{3}}}}},{{{{{4}},{{5}}}}}}}
+template <int R> struct IL { typedef std::initializer_list<typename IL<R - 1>::type> type; };
+template <> struct IL<0> { typedef int type; };
+template <bool A, int R> struct FixT;
+template <bool A> struct FixT<A, 1> { typedef FixedArray<Real, A, 3> type; };
+template <bool A> struct FixT<A, 2> { typedef FixedArray<Real, A, 2, 3> type; };
+template <bool A> struct FixT<A, 3> { typedef FixedArray<Real, A, 2, 1, 2> type; };
+template <bool A> struct FixT<A, 4> { typedef FixedArray<Real, A, 1, 2, 1, 2> type; };
+template <bool A> struct FixT<A, 5> { typedef FixedArray<Real, A, 2, 1, 1, 2, 1> type; };
+template <bool A> struct FixT<A, 6> { typedef FixedArray<Real, A, 1, 1, 2, 1, 1, 2> type; };
+// *obj = list of rank R (a typed list: nested braces deduce only for ranks 1 and 2)
+template <int R> struct AsgList;
+#define ASG_LIST(r) template <> struct AsgList<r> { template <class T> static void go(T& t, int v) { \
+  if (v) { IL<r>::type l = LIT_##r##_1; t = l; } else { IL<r>::type l = LIT_##r##_0; t = l; } } };
+ASG_LIST(1) ASG_LIST(2) ASG_LIST(3) ASG_LIST(4) ASG_LIST(5) ASG_LIST(6)
+template <class A> static int do_alist(A&, int) { return -1; }
+template <int R> static int do_alist(Array<R, Real, true>& a, int v) {
+  if (!a.empty()) for (int i = 0; i < R; ++i) if (a.dimension(i) != LIST_SHAPES[R][i]) return -1;
+  AsgList<R>::go(a, v);
+  return 0;
+}
+// inactive objects made from a list: they register nothing
+template <class T, int R> struct InactH : Base {
+  T* p;
+  InactH(T* q) : Base(104), p(q) {}
+  ~InactH() { delete p; }
+  std::string str() { return "I[]"; }
+  int assignList(int v) { AsgList<R>::go(*p, v); return 0; }
+};
+template <int R> static void touch_inactive(Array<R, Real, false>& a) {
+  Array<R, Real, false> c(a); Array<R, Real, false> l; l >>= a; l.clear();
+}
+static void touch_inactive(Array<1, Real, false>& a) {
+  Array<1, Real, false> c(a); Array<1, Real, false> l; l >>= a;
+  { Array<1, Real, false> e = a(range(1, 0)); Array<1, Real, false> e2 = a(stride(2, 0, 2)); l >>= a(range(0, 1)); }
+}
+template <class FA, int R> struct FixLH : Base {
+  FA* p; int n;
+  FixLH(FA* q) : Base(105), p(q), n(1) { for (int i = 0; i < R; ++i) n *= LIST_SHAPES[R][i]; }
+  ~FixLH() { delete p; }
+  std::string str() { std::ostringstream os; os << "F[" << p->gradient_index() << "+" << n << "]"; return os.str(); }
+  long gidx() { return p->gradient_index(); }
+  int assignList(int v) { AsgList<R>::go(*p, v); return 0; }
+};
+template <class D, class V> struct LinkV { static bool go(D&, V&&) { return false; } };
+template <class D> struct LinkV<D, D> { static bool go(D& d, D&& v) { d >>= std::move(v); return true; } };
+template <class D> static bool link_slice(D& d, Base* src, const std::vector<Spec>& s);
 
 template <class A> struct ArrH : Base {
   A* p;
@@ -201,6 +284,9 @@ template <class A> struct ArrH : Base {
   bool assign(Base* s) { ArrH<A>* o = dynamic_cast<ArrH<A>*>(s); if (!o || o == this) return false; return do_assign(*p, *o->p); }
   bool swapWith(Base* s) { ArrH<A>* o = dynamic_cast<ArrH<A>*>(s); if (!o || o == this) return false; return do_swap(*p, *o->p); }
   Base* slice(const std::vector<Spec>& s) { return do_slice(*p, s); }
+  int assignList(int v) { return do_alist(*p, v); }
+  bool linkSlice(Base* src, const std::vector<Spec>& s) { return link_slice(*p, src, s); }
+  int dimAt(int i) { return dim_of(*p, i); }
 };
 template <class V> static Base* wrap_view(const V& v) { return new ArrH<V>(new V(v)); }
 
@@ -232,11 +318,58 @@ static Base* do_slice(aArray3D& a, const std::vector<Spec>& s) {
   }
   return 0;
 }
+template <class D> static bool link_slice(D& d, Base* src, const std::vector<Spec>& s) {
+  if (ArrH<aVector>* h = dynamic_cast<ArrH<aVector>*>(src)) {
+    aVector& a = *h->p;
+    if (s[0].fix) return false;
+    return LinkV<D, aVector>::go(d, a(R(0)));
+  }
+  if (ArrH<aMatrix>* h = dynamic_cast<ArrH<aMatrix>*>(src)) {
+    aMatrix& a = *h->p;
+    switch ((s[0].fix ? 0 : 2) + (s[1].fix ? 0 : 1)) {
+      case 1: return LinkV<D, aVector>::go(d, a(F(0), R(1)));
+      case 2: return LinkV<D, aVector>::go(d, a(R(0), F(1)));
+      case 3: return LinkV<D, aMatrix>::go(d, a(R(0), R(1)));
+    }
+    return false;
+  }
+  if (ArrH<aArray3D>* h = dynamic_cast<ArrH<aArray3D>*>(src)) {
+    aArray3D& a = *h->p;
+    switch ((s[0].fix ? 0 : 4) + (s[1].fix ? 0 : 2) + (s[2].fix ? 0 : 1)) {
+      case 1: return LinkV<D, aVector>::go(d, a(F(0), F(1), R(2)));
+      case 2: return LinkV<D, aVector>::go(d, a(F(0), R(1), F(2)));
+      case 3: return LinkV<D, aMatrix>::go(d, a(F(0), R(1), R(2)));
+      case 4: return LinkV<D, aVector>::go(d, a(R(0), F(1), F(2)));
+      case 5: return LinkV<D, aMatrix>::go(d, a(R(0), F(1), R(2)));
+      case 6: return LinkV<D, aMatrix>::go(d, a(R(0), R(1), F(2)));
+      case 7: return LinkV<D, aArray3D>::go(d, a(R(0), R(1), R(2)));
+    }
+    return false;
+  }
+  return false;
+}
 #undef R
 #undef F
 
+// object of rank r constructed from a nested initializer list; cls 0 active Array, 1 inactive Array, 2 active FixedArray, 3 inactive
+template <int R> static Base* make_from_list_r(int cls, int v);
+#define MK_LIST(r) template <> Base* make_from_list_r<r>(int cls, int v) { \
+  if (cls == 0) { typedef Array<r, Real, true> T; return new ArrH<T>(v ? new T LIT_##r##_1 : new T LIT_##r##_0); } \
+  if (cls == 1) { typedef Array<r, Real, false> T; T* q = v ? new T LIT_##r##_1 : new T LIT_##r##_0; touch_inactive(*q); \
+                  return new InactH<T, r>(q); } \
+  if (cls == 2) { typedef FixT<true, r>::type T; return new FixLH<T, r>(v ? new T LIT_##r##_1 : new T LIT_##r##_0); } \
+  typedef FixT<false, r>::type T; return new InactH<T, r>(v ? new T LIT_##r##_1 : new T LIT_##r##_0); }
+MK_LIST(1) MK_LIST(2) MK_LIST(3) MK_LIST(4) MK_LIST(5) MK_LIST(6)
+static Base* make_from_list(int cls, int r, int v) {
+  switch (r) {
+    case 1: return make_from_list_r<1>(cls, v); case 2: return make_from_list_r<2>(cls, v); case 3: return make_from_list_r<3>(cls, v);
+    case 4: return make_from_list_r<4>(cls, v); case 5: return make_from_list_r<5>(cls, v); case 6: return make_from_list_r<6>(cls, v);
+  }
+  return 0;
+}
+
 static int n_args(int kind) { return kind < 10 ? kind : 1; }
-static bool known_kind(int kind) { return kind == 1 || kind == 2 || kind == 3 || kind == 10 || kind == 11 || kind == 14 || kind == 15; }
+static bool known_kind(int kind) { return (kind >= 1 && kind <= 6) || kind == 10 || kind == 11 || kind == 14 || kind == 15; }
 
 // `fault`: the data allocation of the constructor fails; returns 0 and sets threw
 static Base* make_array(int kind, const std::vector<int>& d, bool fault, bool& threw) {
@@ -247,6 +380,9 @@ static Base* make_array(int kind, const std::vector<int>& d, bool fault, bool& t
       case 1: r = new ArrH<aVector>(Traits<aVector>::mk(d)); break;
       case 2: r = new ArrH<aMatrix>(Traits<aMatrix>::mk(d)); break;
       case 3: r = new ArrH<aArray3D>(Traits<aArray3D>::mk(d)); break;
+      case 4: r = new ArrH<aArray4D>(Traits<aArray4D>::mk(d)); break;
+      case 5: r = new ArrH<aArray5D>(Traits<aArray5D>::mk(d)); break;
+      case 6: r = new ArrH<aArray6D>(Traits<aArray6D>::mk(d)); break;
       case 10: r = new ArrH<aSquareMatrix>(Traits<aSquareMatrix>::mk(d)); break;
       case 11: r = new ArrH<aSymmMatrix>(Traits<aSymmMatrix>::mk(d)); break;
       case 14: r = new ArrH<aTridiagMatrix>(Traits<aTridiagMatrix>::mk(d)); break;
@@ -420,9 +556,10 @@ int main(int argc, char** argv) {
         if (!b) BAD;
         objs[k] = b;
         LINE(0, false);
-      } else if (w[0] == "sl" && w.size() >= 4) {
+      } else if ((w[0] == "sl" || w[0] == "lt") && w.size() >= 4) {
+        bool lt = w[0] == "lt";
         long s = atol(w[2].c_str());
-        if (objs.count(k) || !objs.count(s)) BAD;
+        if ((lt ? !objs.count(k) : objs.count(k) != 0) || !objs.count(s) || k == s) BAD;
         Base* src = objs[s];
         if (src->kind > 3 || (int)w.size() - 3 != src->kind || src->gidx() == -9999) BAD;
         std::vector<Spec> sp(w.size() - 3);
@@ -430,27 +567,39 @@ int main(int argc, char** argv) {
         for (size_t i = 3; i < w.size(); ++i) {
           if (!parse_spec(w[i], sp[i - 3])) BAD;
           Spec& q = sp[i - 3];
-          // the model and the library must be asked for non-empty, in-range views only
-          if (q.fix) { if (q.i < 0) BAD; } else { if (q.lo < 0 || q.lo > q.hi || q.st < 1) BAD; ++nr; }
+          // in-range views only; lo > hi is an EMPTY selection when stride(lo,hi,st).size() == (hi - lo + st)/st == 0
+          if (q.fix) { if (q.i < 0) BAD; }
+          else { if (q.lo < 0 || q.hi < 0 || q.st < 1) BAD; if (q.lo > q.hi && !(q.lo < q.hi + 2 * q.st)) BAD; ++nr; }
         }
         if (nr == 0) BAD;
         // bounds (the library is built without bounds checking): against the dimensions of the source
-        {
-          ArrH<aVector>* a1 = dynamic_cast<ArrH<aVector>*>(src); ArrH<aMatrix>* a2 = dynamic_cast<ArrH<aMatrix>*>(src);
-          ArrH<aArray3D>* a3 = dynamic_cast<ArrH<aArray3D>*>(src);
-          for (size_t i = 0; i < sp.size(); ++i) {
-            int dim = a1 ? a1->p->dimension(i) : a2 ? a2->p->dimension(i) : a3->p->dimension(i);
-            if (sp[i].fix ? sp[i].i >= dim : sp[i].hi >= dim) BAD;
-          }
+        for (size_t i = 0; i < sp.size(); ++i) {
+          int top = sp[i].fix ? sp[i].i : (sp[i].lo > sp[i].hi ? sp[i].lo : sp[i].hi);
+          if (top >= src->dimAt((int)i)) BAD;
         }
-        Base* b = src->slice(sp);
-        if (!b) BAD;
-        objs[k] = b;
+        if (lt) {
+          if (objs[k]->kind != nr) BAD;
+          if (!objs[k]->linkSlice(src, sp)) BAD;
+        } else {
+          Base* b = src->slice(sp);
+          if (!b) BAD;
+          objs[k] = b;
+        }
+        LINE(0, false);
+      } else if (w[0] == "il" && w.size() == 5) {
+        int cls = atoi(w[2].c_str()), r = atoi(w[3].c_str()), v = atoi(w[4].c_str());
+        if (objs.count(k) || cls < 0 || cls > 3 || r < 1 || r > 6 || v < 0 || v > 1) BAD;
+        objs[k] = make_from_list(cls, r, v);
+        LINE(0, false);
+      } else if (w[0] == "al" && w.size() == 3) {
+        int v = atoi(w[2].c_str());
+        if (!objs.count(k) || v < 0 || v > 1) BAD;
+        if (objs[k]->assignList(v) != 0) BAD;
         LINE(0, false);
       } else if ((w[0] == "ln" || w[0] == "as" || w[0] == "sa") && w.size() == 3) {
         long s = atol(w[2].c_str());
         if (!objs.count(k) || !objs.count(s) || objs[k]->kind >= 100 || objs[k]->kind != objs[s]->kind || k == s) BAD;
-        if (w[0] != "ln" && objs[k]->kind > 3) BAD;
+        if (w[0] != "ln" && objs[k]->kind >= 10) BAD;
         try {
           if (w[0] == "ln") objs[k]->link(objs[s]);
           else if (w[0] == "as") objs[k]->assign(objs[s]);
